@@ -114,6 +114,9 @@ def impl_formats(case):
         if st != 'ok':
             raise SystemExit(f'{fmt}: {st}: {str(val)[:200]}')
         res[fmt] = [list(x) for x in val['map']]
+        # the binary image written by the same run: it must not depend on which format was printed beside it
+        if 'image' in res and res['image'] != val['image']:
+            raise SystemExit(f'binary image written with -t {fmt} differs from the one written with -t {FORMATS[0]}')
         res['image'] = val['image']
     return res
 
@@ -341,6 +344,47 @@ def multi_dir_cases(rng, n):
     return out
 
 
+def ambiguous_name_cases(rng, n):
+    """an include name that exists in two of the searched directories, one of them the main file's own directory which is also
+    passed with -I: whatever the assembler makes of it (it rejects it), it must not depend on the order of the -I options"""
+    from .sysgen import num
+    out = []
+    for k in range(n):
+        lib = rng.choice(['lib_core', 'vendor', 'a_inc', 'zlib'])
+        base = dict(addr_bits=16, endian='big', origin=0, page=1, terminator=0, embedded=False, zones=[], consts=[], data=[], syms=[], cli=[])
+        files = [{'name': 'main.asm', 'dir': 'src', 'stmts': [['data', 1, [num(1)]], ['include', 1, 'board.asm'], ['data', 1, [num(2)]]]},
+                 {'name': 'board.asm', 'dir': 'src', 'stmts': [['data', 1, [num(0x10 + k)]]]}]
+        dirs = [['src', lib], [lib, 'src'], [lib], ['src', lib, 'src']][k % 4]
+        c = {'cfg': base, 'files': files, 'include_dirs': dirs,
+             'extra_files': [{'dir': lib, 'name': 'board.asm', 'text': f'    .byte {0x80 + k}, {0x81 + k}\n'}],
+             'opts': {'start': 0, 'end': None, 'fill': 0}, 'det_seed': rng.randrange(1 << 30), 'det_runs': 6, 'isa': {'macros': {}}}
+        out.append(c)
+    return out
+
+
+def redefined_symbol_cases(rng, n):
+    """a preprocessor symbol defined twice, with different values, through two of the three routes (instruction set file, -D,
+    #define) and used in emitted code: the outcome (a rejection) is the same under every hash seed"""
+    out = []
+    for k in range(n):
+        routes = [['isa', 'cli'], ['isa', 'define'], ['cli', 'define'], ['define', 'define']][k % 4]
+        name = rng.choice(['IO_BASE', 'PORT_A', 'LIMIT'])
+        vals = rng.sample(['16', '32', '64', '128', '7', '200'], 2)
+        cfg = dict(addr_bits=16, endian='big', origin=0, page=1, terminator=0, embedded=False, zones=[], consts=[], data=[], syms=[], cli=[])
+        stmts = [['data', 1, [('num', '1')]]]
+        for r, v in zip(routes, vals):
+            if r == 'isa':
+                cfg['syms'].append([name, v])
+            elif r == 'cli':
+                cfg['cli'].append([name, v])
+            else:
+                stmts.append(['define', name, v])
+        stmts += [['other_text', f'.byte {name}, {name}+1'], ['other_text', f'ldi a, {name}']]
+        out.append({'cfg': cfg, 'files': [{'name': 'main.asm', 'dir': 'src', 'stmts': stmts}], 'include_dirs': [], 'extra_files': [],
+                    'opts': {'start': 0, 'end': None, 'fill': 0}, 'det_seed': rng.randrange(1 << 30), 'det_runs': 8, 'isa': {'macros': {}}})
+    return out
+
+
 def isa_determinism_oracle(n_quick=25, n_thorough=400):
     def gen(rng, tier):
         from . import sysisa
@@ -352,7 +396,8 @@ def isa_determinism_oracle(n_quick=25, n_thorough=400):
             out.append(c)
         q = tier == 'quick'
         return (out + dotted_cases(rng, 12 if q else 150) + mnemonic_family_cases(rng, 12 if q else 150)
-                + symlink_include_cases(rng, 4 if q else 40) + multi_dir_cases(rng, 6 if q else 60))
+                + symlink_include_cases(rng, 4 if q else 40) + multi_dir_cases(rng, 6 if q else 60)
+                + ambiguous_name_cases(rng, 8 if q else 60) + redefined_symbol_cases(rng, 8 if q else 80))
     return Oracle(name='determinism_isa', gen=gen, check=_isa_determinism_check, nontrivial=lambda c: True,
                   classify=lambda c: 'isa', timeout=600)
 
